@@ -1,10 +1,12 @@
 /-
 C10 — driver.  One trace line = one independent call of the real code:
-  run api=<mr|void|each> n=<items> w=<workers> ctx=<none|can|pre> gp=<k|-> gx=<k|-> m=<s0>/<s1>/… r=<script>
+  run api=<mr|void|each> n=<items> w=<workers> ctx=<none|can|pre> gp=<k|-> gx=<k|-> gw=<k:ev,…|-> m=<s0>/<s1>/… r=<script>
     => res=<val:v|ok|err:E<k>|err:nil|err:deadline|err:noout|panic:<pg|pm<i>|pr|multi|sendclosed>|hang>
-       left=<goroutines left> mapped=<items> reduced=<values> hist=<s<i>/e<i> events> stalltimeouts=<k> panicked=<k>
-The monitor (`violation`) evaluates the property on what the implementation did; the correspondence
-(`mismatch`) runs the interleaving model under several schedulers and compares.
+       left=<goroutines left> mapped=<items> reduced=<values> hist=<totally ordered events> stalltimeouts=<k> panicked=<k> waitsbyret=<k>
+The monitor (`violation`) evaluates the property on what the implementation did — the outcome must be in
+the returned-error table `allowed` AND in the table for the schedule that happened (`allowedAt` on the
+observed event history); the correspondence (`mismatch`) runs the interleaving model under several
+schedulers and compares.
 -/
 import GoZero.Base.Trace
 import GoZero.C10.Spec
@@ -21,6 +23,8 @@ def parseAct (t : String) : Option (Option UAct) :=
   | ['s'] => some none
   | ['y'] => some none
   | ['x'] => some none
+  | 'u' :: _ :: _ => some none
+  | 't' :: _ :: _ => some none
   | 'w' :: d => (String.ofList d).toNat?.map fun v => some (.write v)
   | 'c' :: d => (String.ofList d).toNat?.map fun k => some (.cancel (if k = 0 then none else some k))
   | _ => none
@@ -40,18 +44,73 @@ def parseOptNat (s : String) : Option (Option Nat) :=
 def parseNatList (s : String) : Option (List Nat) :=
   if s = "-" then some [] else (s.splitOn ",").mapM (·.toNat?)
 
-def parseHist (s : String) : Option (List (Bool × Nat)) :=
+def natOf (d : List Char) : Option Nat := (String.ofList d).toNat?
+
+/-- `m<i>_<k>` / `r_<k>` → who and error (0 = nil). -/
+def parseWhoErr (d : List Char) : Option (Who × Option Nat) :=
+  match (String.ofList d).splitOn "_" with
+  | [w, k] => do
+    let k ← k.toNat?
+    let e := if k = 0 then none else some k
+    match w.toList with
+    | ['r'] => pure (.reducer, e)
+    | 'm' :: i => (natOf i).map fun i => (.mapper i, e)
+    | _ => none
+  | _ => none
+
+def parseEv (t : String) : Option Ev :=
+  match t.toList with
+  | ['r', 'e', 't'] => some .ret
+  | ['g', 'e'] => some .gend
+  | ['g', 'p'] => some .gpanic
+  | ['r', 'c'] => some .closed
+  | ['r', 'e'] => some .rend
+  | ['r', 'p'] => some .rpanic
+  | ['x', 'a'] => some .ctxBegin
+  | ['x', 'b'] => some .ctxEnd
+  | ['c', 'e', 'r'] => some (.cend .reducer)
+  | 'c' :: 'e' :: 'm' :: d => (natOf d).map fun i => .cend (.mapper i)
+  | 'c' :: 'b' :: d => (parseWhoErr d).map fun we => .cbegin we.1 we.2
+  | 'g' :: 't' :: d => (natOf d).map .taken
+  | 'p' :: 'm' :: d => (natOf d).map .mpanic
+  | 'r' :: 'b' :: d => (natOf d).map .wbegin
+  | 'r' :: 'a' :: d => (natOf d).map .wend
+  | 'r' :: 'v' :: d => (natOf d).map .recv
+  | 's' :: d => (natOf d).map .mstart
+  | 'e' :: d => (natOf d).map .mend
+  | _ => none
+
+def parseHist (s : String) : Option (List Ev) :=
+  if s = "-" then some [] else (s.splitOn ",").mapM parseEv
+
+/-- start/end history of the mapper invocations. -/
+def startEnd (h : List Ev) : List (Bool × Nat) :=
+  h.filterMap fun e => match e with
+    | .mstart i => some (true, i)
+    | .mend i => some (false, i)
+    | _ => none
+
+/-- the event classes the script waits (`u<ev>`) and the generator stalls (`gw`) refer to. -/
+def waitClass (ev : String) : String :=
+  String.ofList (ev.toList.takeWhile fun ch => !ch.isDigit)
+
+def waitsOf (script : String) : List String :=
+  (script.splitOn ".").filterMap fun t => match t.toList with
+    | 'u' :: d => some (waitClass (String.ofList d))
+    | 't' :: d => some ("probe-" ++ waitClass (String.ofList d))
+    | _ => none
+
+def parseGw (s : String) : Option (List (Nat × String)) :=
   if s = "-" then some [] else
-  (s.splitOn ",").mapM fun t =>
-    match t.toList with
-    | 's' :: d => (String.ofList d).toNat?.map fun i => (true, i)
-    | 'e' :: d => (String.ofList d).toNat?.map fun i => (false, i)
+  (s.splitOn ",").mapM fun t => match t.splitOn ":" with
+    | [k, ev] => if ev = "" then none else k.toNat?.map fun k => (k, ev)
     | _ => none
 
 structure Run where
   api : String
   cfg : Cfg
   scripts : List (List UAct)
+  waits : List String      -- "<who>-on-<event class>" of every wait / generator stall of the call
 
 def minWorkers : Nat := 1
 
@@ -75,7 +134,12 @@ def parseRun (op : List String) : Option Run :=
     let r := if api = "mr" then r0 else r0.filter fun a => match a with | .write _ => false | _ => true
     let xs := parts.any usesCtx || usesCtx ((kv? kvs "r").getD "") || gx.isSome
     if xs ∧ ctx = "none" then none
-    pure { api := api, scripts := ms,
+    let gw ← parseGw ((kv? kvs "gw").getD "-")
+    if gw.any (fun p => p.1 > n) then none
+    let waits := gw.map (fun p => s!"generator-on-{waitClass p.2}")
+      ++ (parts.flatMap waitsOf).map (fun cl => s!"mapper-on-{cl}")
+      ++ (waitsOf ((kv? kvs "r").getD "-")).map (fun cl => s!"reducer-on-{cl}")
+    pure { api := api, scripts := ms, waits := waits,
            cfg := { n := n, workers := if w < (minWorkers : Int) then minWorkers else w.toNat, gPanicAt := gp,
                     mscript := fun i => ms.getD i [], rscript := r,
                     ctxCan := ctx = "can", ctxPre := ctx = "pre", fixed := true } }
@@ -144,18 +208,42 @@ def sorted (l : List Nat) : List Nat := sortNat l
 
 def showNats (l : List Nat) : String := if l.isEmpty then "-" else ",".intercalate (l.map toString)
 
+/-- why `allowedAt` rejects (for the message). -/
+def schedWhy (mapped : List Nat) (h : List Ev) (res : Res) : String :=
+  let hr := upTo (· == .ret) h
+  match res with
+  | .val v =>
+    if firstWrite hr ≠ some v then "the value is not the reducer's first write begun before the return"
+    else if (upTo isWbegin hr).any isCend then "a cancel call had returned before the reducer began to write"
+    else if drainedTake mapped (upTo isWbegin hr) then
+      "a cancel had recorded its error and was draining the source before the reducer began to write: the error must be returned"
+    else "the context was over before the reducer began to write"
+  | .err .noOutput =>
+    if ¬ hr.contains .rend then "ErrReduceNoOutput although the reducer had not returned"
+    else "a cancel had recorded its error before the reducer returned: the error must be returned"
+  | .err (.user _) => "no cancel call with this error began before another cancel call had returned"
+  | .err .nilCancel => "no cancel(nil) call began before another cancel call had returned"
+  | .err .deadline => "the context had not been cancelled before the return"
+  | .panic .multi => "the reducer had not begun a second write"
+  | .panic .sendClosed => "the reducer had not begun to write"
+  | .panic _ => "that user function had not panicked before the return"
+
 def runLine (r : Report) (sec : Nat) (l : Line) : Report := Id.run do
   let mut r := { r with ops := r.ops + 1 }
   let some run := parseRun l.op | return r.mismatch sec l.idx "bad-op" (joinSp l.op)
   let c := run.cfg
   let some resS := kv? l.obs "res" | return r.mismatch sec l.idx "bad-obs" (joinSp l.obs)
+  -- not executed: the harness stops after a few calls that did not return (each of them is a violation already)
+  if resS = "skipped" then return r.addCover "not-executed-after-hangs"
   let some left := (kv? l.obs "left").bind (·.toNat?) | return r.mismatch sec l.idx "bad-obs-left" (joinSp l.obs)
   let some mapped := (kv? l.obs "mapped").bind parseNatList | return r.mismatch sec l.idx "bad-obs-mapped" (joinSp l.obs)
   let some reduced := (kv? l.obs "reduced").bind parseNatList | return r.mismatch sec l.idx "bad-obs-reduced" (joinSp l.obs)
   let some hist := (kv? l.obs "hist").bind parseHist | return r.mismatch sec l.idx "bad-obs-hist" (joinSp l.obs)
   let some stallT := (kv? l.obs "stalltimeouts").bind (·.toNat?) | return r.mismatch sec l.idx "bad-obs-stall" (joinSp l.obs)
   let some panicked := (kv? l.obs "panicked").bind (·.toNat?) | return r.mismatch sec l.idx "bad-obs-panicked" (joinSp l.obs)
+  let some waitsByRet := (kv? l.obs "waitsbyret").bind (·.toNat?) | return r.mismatch sec l.idx "bad-obs-waitsbyret" (joinSp l.obs)
   let opS := joinSp l.op
+  let histS := (kv? l.obs "hist").getD "-"
   r := r.addCover s!"api-{run.api}"
   r := r.addCover (if faultFree c then "fault-free" else "faulty")
   if c.n = 0 then r := r.addCover "items-0"
@@ -163,20 +251,34 @@ def runLine (r : Report) (sec : Nat) (l : Line) : Report := Id.run do
   if c.ctxPre then r := r.addCover "ctx-pre"
   if c.ctxCan then r := r.addCover "ctx-can"
   if (l.op.any fun t => (t.splitOn ".").contains "s") then r := r.addCover "outlives-call"
+  for wt in run.waits.eraseDups do r := r.addCover s!"wait-{wt}"
+  if waitsByRet > 0 then r := r.addCover "wait-released-by-return"
   r := r.addCover s!"res-{(resS.splitOn ":").headD ""}{if resS.startsWith "err:E" then ":E" else if resS.startsWith "panic:pm" then ":pm" else if resS.startsWith "val" then "" else ":" ++ ((resS.splitOn ":").getD 1 "")}"
   -- ------------------------------------------------------------ monitor: the property on the implementation
   if resS = "hang" then
     return r.violation sec l.idx s!"deadlock: the call did not return (goroutines left={left}) op=[{opS}]"
   if stallT ≠ 0 then
     r := r.violation sec l.idx s!"a stalled user function was never released op=[{opS}]"
-  -- a reducer that writes three times is outside the property (its third write can never be received)
+  -- A reducer that writes three or more times can be left blocked in its third Write (nobody reads `output` after the
+  -- library's panic "more than one element written in reducer").  Decided by replay on the real code
+  -- (`run … r=w1.w2.w3` => panic:multi left=1 hist=…,rb1,ra1,rb2,ret,ra2,rb3): that reducer function has NOT returned,
+  -- so the clause "once the user functions have returned no goroutine … remains" does not apply to it.  The
+  -- exemption is taken only when the history shows exactly this: two completed writes, a third one begun and not
+  -- returned, the reducer function not ended.
   let inContract := (writesOf c.rscript).length ≤ 2
-  if ¬ inContract then r := r.addCover "reducer-writes>2-out-of-contract"
-  if left ≠ 0 ∧ inContract then
-    r := r.violation sec l.idx s!"goroutine leak: {left} goroutine(s) of the call alive after every user function returned res={resS} op=[{opS}]"
-  if peak hist > c.workers then
-    r := r.violation sec l.idx s!"mapper cap: {peak hist} mappers ran concurrently, workers={c.workers} op=[{opS}]"
-  if peak hist = c.workers ∧ c.workers > 1 then r := r.addCover "cap-reached"
+  let wb := (hist.filter isWbegin).length
+  let we := (hist.filter (fun e => match e with | .wend _ => true | _ => false)).length
+  let blockedInWrite : Bool := decide (we ≥ 2) && decide (wb > we) && !hist.contains .rend && !hist.contains .rpanic
+  if ¬ inContract then r := r.addCover "reducer-writes>2"
+  if left ≠ 0 ∧ blockedInWrite then r := r.addCover "reducer-blocked-in-3rd-write-has-not-returned(outside)"
+  if left ≠ 0 ∧ ¬ blockedInWrite then
+    r := r.violation sec l.idx s!"goroutine leak: {left} goroutine(s) of the call alive after every user function returned res={resS} hist={histS} op=[{opS}]"
+  let se := startEnd hist
+  if peak se > c.workers then
+    r := r.violation sec l.idx s!"mapper cap: {peak se} mappers ran concurrently, workers={c.workers} op=[{opS}]"
+  if peak se = c.workers ∧ c.workers > 1 then r := r.addCover "cap-reached"
+  if ¬ hist.contains .ret then
+    r := r.violation sec l.idx s!"the call returned but the history has no return event op=[{opS}]"
   if ¬ (mapped.all (· < c.n)) ∨ ¬ (mapped.all fun i => mapped.count i = 1) then
     r := r.violation sec l.idx s!"an item was handed to the mapper more than once (or is unknown): mapped={showNats mapped} op=[{opS}]"
   if run.api ≠ "each" ∧ ¬ subMultiset reduced (writesOfItems c mapped) then
@@ -197,6 +299,30 @@ def runLine (r : Report) (sec : Nat) (l : Line) : Report := Id.run do
     | return r.violation sec l.idx s!"outcome {resS} is neither a cancel/context error, a user panic nor a value op=[{opS}]"
   if ¬ allowed c res then
     r := r.violation sec l.idx s!"outcome {resS} is not in the returned-error table of this call op=[{opS}]"
+  -- the table for the schedule that actually happened
+  let hr := upTo (· == .ret) hist
+  let preW := upTo isWbegin hr
+  if hr.any isWbegin then
+    if preW.any isCend then r := r.addCover "sched-cancel-returned-before-reducer-write"
+    else if drainedTake mapped preW then r := r.addCover "sched-cancel-in-progress-before-reducer-write"
+    else if preW.any (fun e => match e with | .cbegin _ _ => true | _ => false) then
+      r := r.addCover "sched-cancel-begun-before-reducer-write-no-proof"
+    if preW.contains .ctxEnd then r := r.addCover "sched-context-over-before-reducer-write"
+  if hr.contains .rend ∧ setEvidence mapped (upTo (· == .rend) hr) then r := r.addCover "sched-error-recorded-before-reducer-end"
+  if (hr.filter (fun e => match e with | .cbegin _ _ => true | _ => false)).length ≥ 2 ∧ hr.any isCend then
+    r := r.addCover "sched-cancel-after-a-completed-cancel"
+  if ¬ allowedAt mapped hist res then
+    -- an error that WAS passed to cancel before the return, but by a call that began after another cancel call had
+    -- returned, satisfies the property's text; it contradicts the model (cancel runs under a sync.Once:
+    -- `Props.first_cancel_wins`): reported as a broken correspondence, not as a property violation
+    let lateCancel : Bool := match res with
+      | .err (.user k) => cancelBegan (some k) hr
+      | .err .nilCancel => cancelBegan none hr
+      | _ => false
+    if lateCancel then
+      r := r.mismatch sec l.idx s!"the first completed cancel wins (sync.Once): the error of a later cancel call cannot be returned hist={histS}" resS
+    else
+      r := r.violation sec l.idx s!"outcome {resS} is not possible for the schedule that happened ({schedWhy mapped hist res}) hist={histS} op=[{opS}]"
   if noCancel c ∧ panicked > 0 ∧ ¬ isPanicRes res then
     r := r.violation sec l.idx s!"a user panic was lost: outcome {resS} although {panicked} user function(s) panicked and nothing was cancelled op=[{opS}]"
   if faultFree c then
@@ -226,8 +352,11 @@ def runLine (r : Report) (sec : Nat) (l : Line) : Report := Id.run do
           r := r.mismatch sec l.idx s!"{showRes run.api mr} (schedule {k})" resS
         if sorted fin.mapped ≠ sorted mapped then
           r := r.mismatch sec l.idx s!"mapped={showNats (sorted fin.mapped)} (schedule {k})" s!"mapped={showNats mapped}"
-        if sorted fin.reduced ≠ sorted reduced then
+        -- which values a reducer that does not range over the pipe receives depends on the schedule: only their number is fixed
+        if c.rscript.contains .readAll ∧ sorted fin.reduced ≠ sorted reduced then
           r := r.mismatch sec l.idx s!"reduced={showNats (sorted fin.reduced)} (schedule {k})" s!"reduced={showNats reduced}"
+        if ¬ c.rscript.contains .readAll ∧ fin.reduced.length ≠ reduced.length then
+          r := r.mismatch sec l.idx s!"|reduced|={fin.reduced.length} (schedule {k})" s!"reduced={showNats reduced}"
   if reproduced then r := r.addCover "outcome-reproduced-by-a-model-schedule"
   else r := r.addCover "outcome-not-among-sampled-model-schedules"
   return r
